@@ -877,6 +877,17 @@ func (x *restExec) evaluate(rp reporter) verdict {
 	if v.Contended {
 		c.Obs("contended", 1)
 	}
+	if v.Outcome == "timeout" && expS != 0 {
+		for _, e := range x.evs {
+			if e.K == "write" && e.S0 > expS {
+				if e.Err == "" {
+					c.Obs("write_after_expiry_accepted_then_discarded", 1)
+				} else {
+					c.Obs("write_after_expiry_rejected", 1)
+				}
+			}
+		}
+	}
 	c.Obs("late_write_rejected", int64(x.lateRejected))
 	c.Obs("late_write_accepted_discarded", int64(x.lateOK))
 	if x.rec.stall != nil {
@@ -1052,7 +1063,13 @@ func census(c *kit.Case, rp reporter) {
 	if stuck.Load() {
 		return // an unjoined wrapper call is reported as inconclusive, not as a leak
 	}
-	leaked, conclusive := kit.Census(c.ID, 300*time.Millisecond, 4, 30*time.Second)
+	// all harness-owned goroutines were joined; what is left of go-zero's goroutines is the
+	// tail after the work function returned. Give it time to run (the machine may be heavily
+	// loaded) before asking for a *stable* set of parked goroutines.
+	for i := 0; i < 2000 && len(kit.LabelledGoroutines(c.ID)) != 0; i++ {
+		time.Sleep(time.Millisecond)
+	}
+	leaked, conclusive := kit.Census(c.ID, 500*time.Millisecond, 5, 40*time.Second)
 	c.Obs("census", 1)
 	if !conclusive {
 		c.Inconclusive("goroutine census did not stabilise")
@@ -1636,8 +1653,7 @@ func e2eCase(c *kit.Case) {
 			q := reqs[req.URL.Query().Get("id")]
 			mu.Unlock()
 			if q == nil {
-				w.Header().Set("X-Verif-Srv", conf.Name)
-				w.WriteHeader(http.StatusTeapot)
+				io.WriteString(w, "probe:"+conf.Name)
 				return
 			}
 			defer close(q.done)
@@ -1732,14 +1748,16 @@ func e2eCase(c *kit.Case) {
 	client := &http.Client{Timeout: 45 * time.Second, Transport: &http.Transport{MaxIdleConnsPerHost: 4}}
 	defer client.CloseIdleConnections()
 	// make sure it is our server that owns the port
-	if resp, err := client.Get(fmt.Sprintf("http://127.0.0.1:%d/big?id=probe", port)); err != nil || resp.StatusCode != http.StatusTeapot || resp.Header.Get("X-Verif-Srv") != conf.Name {
-		c.Inconclusive("the loopback port is not served by this case's rest.Server")
-		if err == nil {
-			resp.Body.Close()
-		}
+	if resp, err := client.Get(fmt.Sprintf("http://127.0.0.1:%d/big?id=probe", port)); err != nil {
+		c.Inconclusive("probe request failed: " + err.Error())
 		return
 	} else {
+		b, _ := io.ReadAll(resp.Body)
 		resp.Body.Close()
+		if string(b) != "probe:"+conf.Name {
+			c.Inconclusive("the loopback port is not served by this case's rest.Server")
+			return
+		}
 	}
 
 	type result struct {
@@ -1774,11 +1792,18 @@ func e2eCase(c *kit.Case) {
 		res.err = err
 		res.tResp = time.Now()
 		close(q.release) // causal release: the handler is let go only after the client has its response
+		wd := joinWatchdog
+		if err != nil {
+			wd = 2 * time.Second // the request may never have reached the handler
+		}
+		t := time.NewTimer(wd)
 		select {
 		case <-q.done:
 			res.joined = true
-		case <-time.After(joinWatchdog):
+		case <-t.C:
+			res.joined = err != nil
 		}
+		t.Stop()
 		return res
 	}
 	n := 14
@@ -1894,11 +1919,11 @@ func e2eCase(c *kit.Case) {
 
 func TestVerifC04(t *testing.T) {
 	logx.Disable()
-	kit.Run(t, "C04", "rest-cancel", kit.N(400, 12000), restCancelCase)
-	kit.Run(t, "C04", "rest-exempt", kit.N(40, 800), restExemptCase)
-	kit.Run(t, "C04", "rest-timer", kit.N(160, 6000), restTimerCase)
-	kit.Run(t, "C04", "fx-cancel", kit.N(200, 6000), fxCancelCase)
-	kit.Run(t, "C04", "fx-timer", kit.N(80, 3000), fxTimerCase)
-	kit.Run(t, "C04", "e2e", kit.N(8, 64), e2eCase)
+	kit.Run(t, "C04", "rest-cancel", kit.N(8000, 100000), restCancelCase)
+	kit.Run(t, "C04", "rest-exempt", kit.N(300, 4000), restExemptCase)
+	kit.Run(t, "C04", "rest-timer", kit.N(2000, 30000), restTimerCase)
+	kit.Run(t, "C04", "fx-cancel", kit.N(4000, 50000), fxCancelCase)
+	kit.Run(t, "C04", "fx-timer", kit.N(1000, 15000), fxTimerCase)
+	kit.Run(t, "C04", "e2e", kit.N(24, 160), e2eCase)
 	kit.End()
 }
